@@ -271,13 +271,22 @@ fn rnsp(rng: &mut impl Rng, n: usize, ts: &[u64], quick: bool) {
         out
     };
     let unwords = |w: &[u64]| -> Vec<u64> { w.chunks(k).map(|c| if c[1..].iter().all(|&x| x == 0) { c[0] } else { u64::MAX }).collect() };
-    let reps = if quick { 3 } else { 12 };
+    let reps = if quick { 4 } else { 12 };
     for r in 0..reps {
         let mk = |rng: &mut dyn rand::RngCore, r: usize| -> Vec<u64> {
             (0..n).map(|i| match (r + i) % 5 { 0 => 0, 1 => big_t - 1, 2 => ts[0] % big_t, _ => rng.next_u64() % big_t }).collect()
         };
-        let a = mk(rng, r);
-        let b = mk(rng, r + 1);
+        // shorter inputs are legal: the encoder pads them with zeros (the record holds the padded vectors)
+        let la = [n, 1, n / 2 + 1, n - 1][r % 4];
+        let lb = [n, n, 2, n / 2][r % 4];
+        let mut a = mk(rng, r);
+        let mut b = mk(rng, r + 1);
+        for x in a.iter_mut().skip(la) {
+            *x = 0;
+        }
+        for x in b.iter_mut().skip(lb) {
+            *x = 0;
+        }
         for poly in [false, true] {
             // (products are judged with native TLC integers: only for T below 2^15.5)
             let ops: &[&str] = if poly || big_t > 46340 { &["id", "neg", "add", "sub", "add_plain", "sub_plain"] } else { &["id", "neg", "add", "sub", "mul", "square", "add_plain", "sub_plain", "mul_plain"] };
@@ -286,10 +295,10 @@ fn rnsp(rng: &mut impl Rng, n: usize, ts: &[u64], quick: bool) {
                     if quick && sym && (r + op.len()) % 2 == 0 {
                         continue;
                     }
-                    let mut e = json!({"k": "rnsp", "op": op, "poly": poly, "sym": sym, "moduli": ts, "N": n, "a": a, "b": b});
+                    let mut e = json!({"k": "rnsp", "op": op, "poly": poly, "sym": sym, "moduli": ts, "N": n, "a": a, "b": b, "given": [la, lb]});
                     let out = guarded(|| {
-                        let pa = if poly { enc.encode_polynomial_new(&words(&a)) } else { enc.encode_new(&words(&a)) };
-                        let pb = if poly { enc.encode_polynomial_new(&words(&b)) } else { enc.encode_new(&words(&b)) };
+                        let pa = if poly { enc.encode_polynomial_new(&words(&a[..la])) } else { enc.encode_new(&words(&a[..la])) };
+                        let pb = if poly { enc.encode_polynomial_new(&words(&b[..lb])) } else { enc.encode_new(&words(&b[..lb])) };
                         let ca = if sym { encryptor.encrypt_symmetric_new(&pa).expand_seed(&ctx) } else { encryptor.encrypt_new(&pa) };
                         let cb = encryptor.encrypt_new(&pb);
                         let c = match *op {
